@@ -263,7 +263,8 @@ def rule_d(repo, res, m):
     ok = False
     for loop in ast.walk(fn):
         if isinstance(loop, ast.For) and "sequences" in norm(loop.iter):
-            ok = any(isinstance(s, ast.Assign) and dotted(s.targets[0]) == "last_picture_number" and "initial_picture_number" in norm(s.value) for s in loop.body)
+            ipn = fn.args.args[1].arg if len(fn.args.args) > 1 else "initial_picture_number"
+            ok = any(isinstance(s, ast.Assign) and isinstance(s.targets[0], ast.Name) and any(isinstance(x, ast.Name) and x.id == ipn for x in ast.walk(s.value)) for s in loop.body)
     res.check(ok, "C07.d", "restart-per-sequence", where, "numbering must restart (from initial_picture_number) inside the per-sequence loop", by="initialised per sequence")
     # increment rule
     pic = frag = None
